@@ -385,6 +385,53 @@ class RBE:
             if any(('self.' + w) in ctext or ('self.' + mangle(def_cls, w)) in ctext for w in written):
                 continue
             f.learn(c.ast, branch)
+        # a validating call that returned normally has established the negation of each of its refusal guards: `self._check(a, b)`
+        # (no effects, `if G: raise` at the top of the callee) dominating this node makes G(a, b) false here
+        if not getattr(self, '_in_post_facts', False):
+            self._in_post_facts = True
+            try:
+                dom = g.dominators()[node.id]
+                for mid in sorted(dom):
+                    m = g.nodes[mid]
+                    if m is node or m.ast is None or m.kind != 'stmt' or not (isinstance(m.ast, ast.Expr) and isinstance(m.ast.value, ast.Call)):
+                        continue
+                    c = m.ast.value
+                    sc = self_call_kind(c, self.prog)
+                    if not sc or sc[1] in FIRES:
+                        continue
+                    dc, f2 = self._resolve(cls, def_cls, sc)
+                    if f2 is None or f2 is fn:
+                        continue
+                    s2 = self.summary(cls, dc.name, f2, 1)
+                    if s2.get('dirty_ret') is not None or not s2.get('raises'):
+                        continue
+                    bm = bind_args(f2, c, sc[0])
+                    # names / fields the guards read must be unchanged between the call and this node
+                    between = g.reachable_from(m, avoid=(node,))
+                    stored = set()
+                    for nid in between:
+                        bn = g.nodes[nid]
+                        if bn.ast is None or bn is node or bn is m:
+                            continue
+                        for x in walk_shallow(bn.ast):
+                            if isinstance(x, ast.Name) and isinstance(x.ctx, (ast.Store, ast.Del)):
+                                stored.add(x.id)
+                            elif isinstance(x, ast.Attribute) and isinstance(x.ctx, (ast.Store, ast.Del)):
+                                stored.add(x.attr)
+                    for rs in sorted(s2['raises'], key=lambda r: len(r.conds)) * 2:
+                        if not rs.conds:
+                            continue
+                        cds = [(Subst(bm).visit(copy.deepcopy(cd)), tr) for (cd, tr) in rs.conds]
+                        names = {x.id for (cd2, _t) in cds for x in ast.walk(cd2) if isinstance(x, ast.Name)} | \
+                            {x.attr for (cd2, _t) in cds for x in ast.walk(cd2) if isinstance(x, ast.Attribute)}
+                        if names & stored:
+                            continue
+                        # the guards before the last one are the earlier refusals not taken: when they are already known to hold, the call
+                        # reached the last guard, and since it returned normally that guard did not fire
+                        if all(f.ev(cd2) is tr for (cd2, tr) in cds[:-1]):
+                            f.learn(cds[-1][0], not cds[-1][1])
+            finally:
+                self._in_post_facts = False
         # loop variables ranging over the object's own containers
         for st in ast.walk(fn):
             if isinstance(st, ast.For) and isinstance(st.target, ast.Name) and 'self.' in unparse(st.iter):
